@@ -19,10 +19,12 @@ def main(tier):
         bounded_to_check(chk, 'C12/bounded:location_vs_exhaustive_search', b,
                          'random points in / outside the bounding box of rectangular, shipped irregular, refined and rotated geometries (rejected within a tolerance of an edge), '
                          'all search aids and guesses vs brute force with an independent point-in-polygon; 3-D block location; column_track vs dense sampling and independent clipping')
-    chk.trust('A1: floats as mathematical reals', 'pyvc record model (quadtree built by the real constructor on symbolic element centres)', 'z3 QF_LRA / QF_NRA')
-    chk.assume('in_polygon is proved for counter-clockwise triangles with no edge within 1e-3 of horizontal; general polygons (Jordan-curve argument), the wave search, column_track ordering and lengths: bounded')
+    chk.trust('A1: floats as mathematical reals', 'pyvc record model (quadtree built by the real constructor on symbolic element centres); pyvc heap model of real rectangular geometries', 'sets of objects are iterated in creation order (CPython: address order)', 'z3 QF_LRA / QF_NRA')
+    chk.assume('whole-search obligations: real column_containing_point / block_name_containing_point on real rectangular geometries (2x2, 3x1, 3x2 columns; 2x1x2 blocks with a symbolic surface, 3 atmosphere types) with symbolic spacings and a symbolic point, one search aid per program (none, two guesses, bounding rectangle, column subset, quadtree); points within 1e-6 of a column edge are outside the quantifier',
+               'in_polygon is proved for counter-clockwise triangles with no edge within 1e-3 of horizontal; general polygons (Jordan-curve argument), the wave search, column_track ordering and lengths: bounded')
     chk.explanation = ('clause -> evidence: in_rectangle == closed-box membership, rectangles_intersect symmetric and <=> a common point, the four sub-rectangles cover the parent and overlap only on the '
                        'centre lines (so the quadtree places every element), bounds_of_points is the tight box (n up to 8), quadtree.leaf returns a node containing the point / None iff outside, '
                        'layer_containing_elevation returns the unique containing underground layer off boundaries, in_polygon exact on triangles incl. rays through a vertex, line_intersects_rectangle: a rejected segment has no point in the rectangle and the clipping never divides by zero (all 149 paths of the clipping loop): PROVED. '
-                       'Agreement of every search aid with exhaustive search on real meshes, block location, line tracks: BOUNDED.')
+                       'On real rectangular geometries the real column_containing_point returns, for every spacing and every point, the column that strictly contains the point whichever aid is used (no aid, right / wrong guess, bounds, subset, quadtree), a column that contains the point whenever it returns one, and nothing outside the domain; block_name_containing_point returns the unique block containing a 3-D point: PROVED (8 + 3 programs). '
+                       'Agreement of the aids on irregular meshes, line tracks: BOUNDED.')
     return chk.finish()
